@@ -227,7 +227,7 @@ HARNESSES = [
          "hed.validator.util.char_util.CharRexValidator._check_invalid_prefix_issues"],
         quick=R.tier(env={"VP_N": 2}, timeout=200, bound="prefix q: 1-2 printable ASCII chars (no ':' '/'), q != 'p'; "
                                                        "tag body <= 1 char"),
-        thorough=R.tier(env={"VP_N": 3}, timeout=900, bound="prefix q: 1-3 chars"),
+        thorough=R.tier(env={"VP_N": 2}, timeout=900, bound="prefix q: 1-2 chars (3 did not exhaust in 900 CPU-s)"),
         what="an unloaded prefix gives no entry and an error with the published code TAG_NAMESPACE_PREFIX_INVALID; the "
              "character-level prefix check flags a prefix iff it is not purely alphabetic",
         oracle="inline ASCII-letters predicate", stubs=_ST, outside="non-ASCII prefixes"),
